@@ -109,7 +109,7 @@ REGISTRY["C06"] = dict(
 REGISTRY["C16"] = dict(
     modules=["harness.c16_parser"],
     technique="CrossHair symbolic atom codes composing the input string / the expression tree, executed on the real parser, plugins, field types and searcher",
-    text="Totality: every string of 3 atoms from a grammar-aware alphabet (thorough: the full 59-atom alphabet, and 4 atoms over a 20-atom "
+    text="Totality: every string of 3 atoms from a grammar-aware alphabet (thorough: 45 atoms, and 4 atoms over a 14-atom "
          "core) through 10 parser configurations returns a query or raises QueryParserError, and searching it raises at most QueryError.  "
          "Meaning: generated expressions [NOT] o1 c1 [NOT] o2 [c2 [NOT] o3] with optional parentheses over 37 operand kinds select "
          "exactly the documents of the documented reading (NOT > AND > OR > implicit group).",
@@ -118,7 +118,7 @@ REGISTRY["C16"] = dict(
 REGISTRY["C17"] = dict(
     modules=["harness.c17_analysis"],
     technique="CrossHair symbolic text-atom codes composing the document text, executed on the real analyzers, field indexing, parser text processing, searcher and highlighter",
-    text="For 24 shipped analyzer configurations and every text of 3 atoms from a 14-atom (thorough 22) alphabet: each index-time token, "
+    text="For 24 shipped analyzer configurations and every text of 3 atoms from a 14-atom (thorough 18) alphabet: each index-time token, "
          "the query-time conjunction, the parser's term_query and every phrase of 2-3 consecutive positions find the document; positions "
          "never decrease; offsets lie in the text and re-analyse to the token; highlights (4 fragmenters x 2 formatters) stripped of "
          "markup are substrings of the text and mark only matched terms.",
